@@ -99,6 +99,111 @@ def synth_mod(rng, compressible=True, tiny=False):
     return bytes(hdr) + bytes(pats) + b"".join(samples)
 
 
+def synth_mod_big(rng, nbytes=230000):
+    """A valid M.K. module whose two samples are ~nbytes of incompressible data: libbz2 at level 1
+    (100 kB blocks) needs >= 3 blocks for it."""
+    per = min(131070, nbytes // 2) // 2 * 2
+    title = ("c09 big %d" % rng.randrange(10 ** 6)).encode()[:20].ljust(20, b"\0")
+    hdr = bytearray(title)
+    samples = []
+    for i in range(31):
+        if i < 2:
+            data = b"\0\0" + rng.randbytes(per - 2)
+            samples.append(data)
+            hdr += ("big%d" % i).encode().ljust(22, b"\0") + struct.pack(">HBBHH", per // 2, 0, 64, 0, 1)
+        else:
+            hdr += b"\0" * 22 + struct.pack(">HBBHH", 0, 0, 0, 0, 1)
+    hdr += bytes([1, 0x7F]) + bytes(128) + b"M.K."
+    pat = bytearray(1024)
+    pat[0:4] = bytes([0x01, 0xAC, 0x10, 0x00])
+    pat[4:8] = bytes([0x01, 0xAC, 0x20, 0x00])
+    return bytes(hdr) + bytes(pat) + b"".join(samples)
+
+
+_BZ_TAB = None
+
+
+def crc32_bz_fast(data, crc=0xFFFFFFFF):
+    """table-driven form of crc32_bz (table built from the bitwise definition above); returns the
+    running register (not inverted)"""
+    global _BZ_TAB
+    if _BZ_TAB is None:
+        _BZ_TAB = []
+        for i in range(256):
+            c = i << 24
+            for _ in range(8):
+                c = ((c << 1) ^ 0x04C11DB7) & 0xFFFFFFFF if c & 0x80000000 else (c << 1) & 0xFFFFFFFF
+            _BZ_TAB.append(c)
+    t = _BZ_TAB
+    for b in data:
+        crc = ((crc << 8) & 0xFFFFFFFF) ^ t[(crc >> 24) ^ b]
+    return crc
+
+
+def bz_find_bits(data, magic48):
+    """bit offsets at which the 48-bit pattern occurs in `data`"""
+    pat = magic48.to_bytes(6, "big")
+    v = int.from_bytes(data, "big")
+    out = []
+    for s in range(8):
+        b = ((v << s) & ((1 << (len(data) * 8)) - 1)).to_bytes(len(data), "big")
+        i = b.find(pat)
+        while i >= 0:
+            out.append(i * 8 + s)
+            i = b.find(pat, i + 1)
+    return sorted(out)
+
+
+def bz_layout(data, payload):
+    """Independent parse of a bzip2 file written by libbz2: bit offsets of the block header CRCs and of the
+    stream CRC, the CRC values, and the split of the payload into the blocks (found by matching
+    the running bitwise-defined CRC against each block's header CRC).  None if it cannot be established."""
+    blocks = bz_find_bits(data, 0x314159265359)
+    eos = bz_find_bits(data, 0x177245385090)
+    if not blocks or not eos:
+        return None
+    eos = eos[-1]
+    v = int.from_bytes(data, "big")
+    nb = len(data) * 8
+
+    def bits(off, n):
+        return (v >> (nb - off - n)) & ((1 << n) - 1)
+    hcs = [bits(o + 48, 32) for o in blocks]
+    parts, start = [], 0
+    for i, hc in enumerate(hcs):
+        if i == len(hcs) - 1:
+            end = len(payload)
+            if crc32_bz_fast(payload[start:end]) ^ 0xFFFFFFFF != hc:
+                return None
+        else:
+            crc, end = 0xFFFFFFFF, None
+            t = None
+            crc32_bz_fast(b"")
+            t = _BZ_TAB
+            for k in range(start, len(payload)):
+                crc = ((crc << 8) & 0xFFFFFFFF) ^ t[(crc >> 24) ^ payload[k]]
+                if crc ^ 0xFFFFFFFF == hc and k + 1 - start >= 50000:
+                    end = k + 1
+                    break
+            if end is None:
+                return None
+        parts.append(payload[start:end])
+        start = end
+    return {"block_bits": blocks, "eos_bit": eos, "hdr_crcs": hcs, "stream_crc": bits(eos + 48, 32), "parts": parts}
+
+
+def make_bz2_multi(rng, payload):
+    data = bz2.compress(payload, 1)
+    lay = bz_layout(data, payload)
+    if lay is None or len(lay["parts"]) < 2:
+        return None
+    n = len(data)
+    fields = {"magic": (0, 4), "blockhdr": (4, 10), "trailer": (max(0, n - 11), min(11, n))}
+    for i, o in enumerate(lay["block_bits"][1:], 1):
+        fields["blockhdr%d" % i] = (o // 8, 11)
+    return _arch("bzip2", "multi%d" % len(lay["parts"]), "song.bz2", data, payload, fields, extra={"bz": lay})
+
+
 ARCHIVE_MAGICS = (b"PK", b"\x1f\x8b", b"BZh", b"\xfd7zXZ", b"LZX", b"Archive\0", b"\x1a", b"PP20", b"ziRCONia", b"XPKF",
                   b"\x1f\x9d", b"S404")
 
@@ -180,15 +285,132 @@ def make_xz(rng, payload):
                   "footer": (n - 12, 12)})
 
 
+def _vli(v):
+    out = bytearray()
+    while v >= 0x80:
+        out.append((v & 0x7F) | 0x80)
+        v >>= 7
+    out.append(v)
+    return bytes(out)
+
+
+def lzma2_stored(part):
+    """raw LZMA2 stream of uncompressed chunks only (control 0x01 = dictionary reset, then 0x02), written here"""
+    out = bytearray()
+    first = True
+    for i in range(0, len(part), 65536):
+        c = part[i:i + 65536]
+        out += bytes([1 if first else 2]) + struct.pack(">H", len(c) - 1) + c
+        first = False
+    return bytes(out) + b"\0"
+
+
+def make_xz_multi(rng, payload, nblocks=None, check=1, stored=None):
+    """xz container written HERE (python), Block data by liblzma's *raw* LZMA2 encoder: several Blocks,
+    optional Compressed/Uncompressed Size fields (multi-byte VLIs), header padding, Block Padding,
+    Index with one Record per Block.  Check type `check`: 1 = CRC-32 (bitwise python CRC), 0 = none."""
+    nblocks = rng.randint(2, 4) if nblocks is None else nblocks
+    nblocks = max(1, min(nblocks, max(1, len(payload))))
+    cuts = sorted(rng.sample(range(1, len(payload)), nblocks - 1)) if nblocks > 1 else []
+    parts = [payload[a:b] for a, b in zip([0] + cuts, cuts + [len(payload)])]
+    flags = bytes([0, check])
+    data = bytearray(b"\xfd7zXZ\0" + flags + struct.pack("<I", crc32_bitwise(flags)))
+    fields = {"streamhdr": (0, 12)}
+    records = []
+    csz = {0: 0, 1: 4}[check]
+    for i, part in enumerate(parts):
+        k = rng.randint(12, 20)
+        filt = [{"id": lzma.FILTER_LZMA2, "dict_size": 1 << k, "lc": rng.randint(0, 3), "lp": 0, "pb": rng.randint(0, 2)}]
+        # some Blocks carry their data in *uncompressed* LZMA2 chunks: a flipped data bit there is invisible to the
+        # LZMA2 decoder (no range coder involved), only the Block's Check can notice it
+        st_i = (stored[i] if stored is not None else (rng.randrange(2) == 0 or (i == len(parts) - 1 and i > 0))) and len(part) > 0
+        body = lzma2_stored(part) if st_i else lzma.compress(part, format=lzma.FORMAT_RAW, filters=filt)
+        if st_i:
+            fields["blockstored%d" % i] = (len(data) + 16, 0)      # marker only (length 0 is dropped by _arch)
+        bflags = 0
+        opt = b""
+        if rng.randrange(2):
+            bflags |= 0x40
+            opt += _vli(len(body))
+        if rng.randrange(2):
+            bflags |= 0x80
+            opt += _vli(len(part))
+        core = bytes([bflags]) + opt + bytes([0x21, 0x01, 2 * (k - 12)])
+        hsize = (1 + len(core) + 4 + 3) // 4 * 4 + 4 * rng.randrange(2)     # sometimes extra header padding
+        hdr = bytes([hsize // 4 - 1]) + core
+        hdr = hdr.ljust(hsize - 4, b"\0")
+        hdr += struct.pack("<I", crc32_bitwise(hdr))
+        fields["blockhdr%d" % i] = (len(data), hsize)
+        data += hdr
+        fields["blockdata%d_head" % i] = (len(data), min(4, len(body)))
+        data += body
+        pad = (-len(body)) % 4
+        if pad:
+            fields["blockpad%d" % i] = (len(data), pad)
+        data += b"\0" * pad
+        if csz:
+            fields["check%d" % i] = (len(data), 4)
+            data += struct.pack("<I", crc32_bitwise(part))
+        records.append((hsize + len(body) + csz, len(part)))
+    ipos = len(data)
+    idx = b"\0" + _vli(len(records)) + b"".join(_vli(u) + _vli(n) for u, n in records)
+    idx += b"\0" * ((-len(idx)) % 4)
+    idx += struct.pack("<I", crc32_bitwise(idx))
+    fields["index"] = (ipos, len(idx))
+    data += idx
+    tail = struct.pack("<I", len(idx) // 4 - 1) + flags
+    fields["footer"] = (len(data), 12)
+    data += struct.pack("<I", crc32_bitwise(tail)) + tail + b"YZ"
+    data = bytes(data)
+    if lzma.decompress(data, format=lzma.FORMAT_XZ) != payload:
+        raise RuntimeError("make_xz_multi: liblzma does not decode our container to the payload")
+    return _arch("xz", "multi%d-c%d" % (len(parts), check), "song.xz", data, payload, fields)
+
+
+def xz_gate_only(rng, payload):
+    """xz streams whose check type carries no check libxmp implements (none / CRC64 / SHA-256: the Check field is
+    skipped): outside the property and the oracle, inside the container model's correspondence."""
+    out = [make_xz_multi(rng, payload, check=0)]
+    for chk, nm, sz in ((lzma.CHECK_NONE, "none", 0), (lzma.CHECK_CRC64, "crc64", 8), (lzma.CHECK_SHA256, "sha256", 32)):
+        data = lzma.compress(payload, format=lzma.FORMAT_XZ, check=chk, preset=rng.randrange(4))
+        n = len(data)
+        bsz = (struct.unpack("<I", data[n - 8:n - 4])[0] + 1) * 4
+        idx = n - 12 - bsz
+        bh = (data[12] + 1) * 4
+        f = {"streamhdr": (0, 12), "blockhdr0": (12, bh), "index": (idx, bsz), "footer": (n - 12, 12)}
+        if sz:
+            f["check0"] = (idx - sz, sz)
+        a = _arch("xz", "lzma-" + nm, "song.xz", data, payload, f)
+        out.append(a)
+    for a in out:
+        a["oracle"] = False
+    return out
+
+
 README = (b"This archive contains a music module.\r\nIt was packed for the C09 corruption check of the libxmp "
           b"verification framework.\r\n" + b"Nothing to see here, this is only filler text so that the member is "
           b"long enough.\r\n" * 3)
 
 
-def make_zip(rng, payload, method=None):
+class _Unseekable:
+    """write-only sink without seek/tell: zipfile then writes local headers with zero CRC/sizes, general
+    purpose bit 3, and a data descriptor after each member"""
+
+    def __init__(self):
+        self.buf = bytearray()
+
+    def write(self, b):
+        self.buf += b
+        return len(b)
+
+    def flush(self):
+        pass
+
+
+def make_zip(rng, payload, method=None, streamed=False):
     method = rng.choice([zipfile.ZIP_STORED, zipfile.ZIP_DEFLATED]) if method is None else method
     comp = rng.choice(["none", "before", "after", "both"])
-    bio = io.BytesIO()
+    bio = _Unseekable() if streamed else io.BytesIO()
     with zipfile.ZipFile(bio, "w") as z:
         def add(name, data, m):
             zi = zipfile.ZipInfo(name, date_time=(1996, 1, 1, 0, 0, 0))
@@ -199,7 +421,7 @@ def make_zip(rng, payload, method=None):
         add("song.mod", payload, method)
         if comp in ("after", "both"):
             add("file_id.diz", README, zipfile.ZIP_STORED)
-    data = bio.getvalue()
+    data = bytes(bio.buf) if streamed else bio.getvalue()
     eocd = data.rindex(b"PK\x05\x06")
     cd = struct.unpack("<I", data[eocd + 16:eocd + 20])[0]
     fields = {"eocd": (eocd, 22)}
@@ -213,10 +435,14 @@ def make_zip(rng, payload, method=None):
             lnl, lel = struct.unpack("<HH", data[lho + 26:lho + 30])
             fields.update({"cdh": (p, 46), "cdh_name": (p + 46, nl), "lh": (lho, 30 + lnl)})
             st = {"cdh": p, "lho": lho, "data": lho + 30 + lnl + lel}
+            if streamed:
+                csz = struct.unpack("<I", data[p + 20:p + 24])[0]
+                fields["datadesc"] = (st["data"] + csz, 16)
         else:
             fields["cdh_other_%d" % p] = (p + 28, 18 + nl)
         p += 46 + nl + el + cl
-    return _arch("zip", "%s-%s" % ("stored" if method == zipfile.ZIP_STORED else "deflate", comp), "song.zip", data,
+    return _arch("zip", "%s-%s%s" % ("stored" if method == zipfile.ZIP_STORED else "deflate", comp, "-dd" if streamed else ""),
+                 "song.zip", data,
                  payload, fields, extra={"zip": st})
 
 
@@ -343,7 +569,9 @@ def seed_archives(max_size=400000):
 
 def all_writers(rng, payload):
     out = [make_gzip(rng, payload), make_gzip(rng, payload, level=0), make_bz2(rng, payload), make_xz(rng, payload),
+           make_xz_multi(rng, payload),
            make_zip(rng, payload, zipfile.ZIP_STORED), make_zip(rng, payload, zipfile.ZIP_DEFLATED),
+           make_zip(rng, payload, streamed=True),
            make_arc(rng, payload, 2), make_arc(rng, payload, 3), make_arc(rng, payload, 1),
            make_arcfs(rng, payload, 2), make_arcfs(rng, payload, 3), make_lzx_stored(rng, payload)]
     return [a for a in out if a is not None and len(a["data"]) >= 100]
@@ -407,6 +635,35 @@ def gen_faults(arch, tier, rng, budget=None):
     return faults
 
 
+def xz_consistent_edits(arch, rng, per_region=6):
+    """CRC-consistent edits of an xz container: one bit flipped inside a CRC-32-protected region (Stream Flags, a
+    Block Header, the Index, the footer's Backward Size + flags) and that region's stored CRC-32 recomputed
+    (bitwise python CRC).  They reach the checks that sit BEHIND the CRCs (size fields, flag comparison, Backward
+    Size, Index records vs blocks).  Outside the property's fault class: correspondence only."""
+    d = arch["data"]
+    regions = []
+    for name, (off, ln) in sorted(arch["fields"].items()):
+        if name == "streamhdr":
+            regions.append((6, 2, 8))
+        elif name.startswith("blockhdr"):
+            regions.append((off, ln - 4, off + ln - 4))
+        elif name == "index":
+            regions.append((off, ln - 4, off + ln - 4))
+        elif name == "footer":
+            regions.append((off + 4, 6, off))
+    out = []
+    for (ro, rl, co) in regions:
+        picks = [(o, b) for o in range(ro, ro + rl) for b in range(8)]
+        if len(picks) > per_region * 8:
+            picks = rng.sample(picks, per_region * 8)
+        for o, b in picks:
+            m = bytearray(d[ro:ro + rl])
+            m[o - ro] ^= 1 << b
+            crc = struct.pack("<I", crc32_bitwise(bytes(m)))
+            out.append(("msub", ((o, m[o - ro]),) + tuple((co + k, crc[k]) for k in range(4))))
+    return out
+
+
 def apply_fault(data, f):
     b = bytearray(data)
     if f[0] == "flip":
@@ -415,6 +672,10 @@ def apply_fault(data, f):
         b[f[1]] = f[2]
     elif f[0] == "trunc":
         b = b[:f[1]]
+    elif f[0] == "msub":
+        # several substitutions at once ((off, val), ...): used only for CRC-consistent edits in the gate correspondence
+        for off, val in f[1]:
+            b[off] = val
     return bytes(b)
 
 
